@@ -130,7 +130,7 @@ def spec__expression(expr):
         if name not in _VAR:                                    # C11: also the base name of an index expression
             UNDEFINED(expr.start, name)
         k = _expression(expr.expression())
-        return PARTIAL("getitem", FLAT_ROWMAJOR(_VAR[name]), k)  # C05/C03: k-th element in row-major order
+        return FLAT_ROWMAJOR(_VAR[name])[k]                      # C05/C03: k-th element in row-major order
 
     if isinstance(expr, blackbirdParser.ParameterLabelContext):
         p = SYMBOL(expr.parameter().NAME().getText())
